@@ -24,7 +24,8 @@ CLAIMS = {
    text=("Decided for every input and layout: Unmarshal has no write effect on its argument's backing array and the array is "
          "not reachable from the receiver or any global at the points-to fixpoint; the slice Marshal returns points only to "
          "memory allocated during the call and nothing is stored into the receiver; NewSlimTrie/NewSlimIndex have no write "
-         "effect on the caller's keys, values, option struct, the bools it points to, or the encoder."),
+         "effect on the caller's keys, values, option struct, the bools it points to, or the encoder, and nothing the caller can still write "
+         "is in the contents closure of the returned trie (identity encoders of the analysed packages followed)."),
    design="4/C20"),
 
  "C02": dict(
@@ -40,7 +41,7 @@ CLAIMS = {
    text=("Decides the refusal clause (a nil test of a builder-computed witness of EACH prefix option panics before any traversal, for "
          "all three scan APIs), the every-value-encoder clause (scan value bytes are located only by the leaf array decoder Get uses; no "
          "GetEncodedSize(nil) fixed-width belief on read paths), the stop clause (false callback result ends ScanFrom; ScanFromTo's "
-         "wrapper returns false or the callback's result), delegation on every path and stickiness of exhaustion. Does not decide order/"
+         "wrapper returns false or the callback's result; the scan loop ends on a nil key, never on its length), delegation on every path and stickiness of exhaustion. Does not decide order/"
          "uniqueness/completeness of yielded keys or bound inclusivity (runtime rank values)."),
    design="4/C04"),
  "C13": dict(
@@ -48,14 +49,16 @@ CLAIMS = {
    text=("Decided for all inputs: no shape field of the wire message (node types, label bitmaps, short table, step presence, leaves) "
          "depends by data or control flow on option InnerPrefix, LeafPrefix or Complete, so all modes with equal DedupValue build the same "
          "trie shape and retained key set and prefix options only add payload. This is the mechanism and a necessary condition of "
-         "monotonicity; it does not decide that the query side uses the payload only to reject."),
+         "monotonicity; on the guarded summary of the option normalisation every path on which Complete can be true ends with InnerPrefix and "
+         "LeafPrefix pointing to true and no flag left nil. It does not decide that the query side uses the payload only to reject."),
    design="4/C13"),
  "C17": dict(
    technique="labelled information-flow analysis of the builder (key-material taint to wire fields and store events)",
    text=("Decided for every key set: values that can hold key bytes are stored into builder state or the returned message only on "
          "paths where option InnerPrefix or LeafPrefix is known true (must-condition from transitive control dependence), and reach only "
-         "InnerPrefixes.Bytes / LeafPrefixes.Bytes; hence in filter mode nothing proportional to key length is stored. Does not decide the "
-         "numeric bound of 8 bytes/key + 256."),
+         "InnerPrefixes.Bytes / LeafPrefixes.Bytes; hence in filter mode nothing proportional to key length is stored; the element width of every "
+         "per-node array outside the payload sections and the decision to build a per-node section at all carry no key-content label (the "
+         "documented empty-trie marker excepted). Does not decide the numeric bound of 8 bytes/key + 256."),
    design="4/C17"),
 
  "C05": dict(
@@ -64,13 +67,15 @@ CLAIMS = {
          "no random/clock/goroutine/%p; no map in wire structs), the no-residue clause (for each of the compatible versions every "
          "non-configuration field of SlimTrie is stored on every success path of the version-specialised Unmarshal before any load that could "
          "observe its old value, derived fields computed after the last message write; Reset likewise), proto.Size = len(Marshal()) by method "
-         "set, and that the stamped version is loadable without fix-up. Does not decide that a loaded trie answers identically."),
+         "set, that the stamped version is loadable without fix-up, and that every bitmap is read with the index kind it is built or loaded with. "
+         "Does not decide that a loaded trie answers identically."),
    design="4/C05"),
  "C06": dict(
    technique="finite version-table evaluation: semver predicates folded on constants, per-version CFG specialisation and path events",
    text=("Decides the dispatch for every version in the compatible list: the version-specialised Unmarshal has success paths and each performs "
          "exactly the loader family of that layout (three sections in order + rebuild + store + init / one Slim section + prefix re-encoding + leaf "
-         "array reconstruction + init / one Slim section + init), fix-up functions identified by the wire fields they write; legacy arrays are "
+         "array reconstruction + init / one Slim section + init), fix-up functions identified by the wire fields they write and no other in-place rewrite "
+         "on a success path; loaders driven by constant tables are unrolled; legacy arrays are "
          "ranked over their own (Bitmaps, Offsets). Does not decide the conversions' arithmetic on arbitrary old streams."),
    design="4/C06"),
  "C07": dict(
@@ -78,14 +83,16 @@ CLAIMS = {
    text=("Decides, for ALL version strings and ALL cut points: the compatible set is a finite list of exact released versions (spec shape + probe "
          "set incl. pre-releases/successors/malformed), the version tested is the header's, incompatible versions have no success path, parse "
          "nothing and return an error derived from ErrIncompatible; after every stream read only an error return is reachable unless the err==nil "
-         "edge of that read's nil test is taken (so every strict prefix is rejected, given pbcmpl's exact-size reads); a fresh message is stored "
-         "first and error paths leave it untouched. Panics inside protobuf on corrupted (not truncated) bodies are not covered."),
+         "edge of that read's nil test is taken (so every strict prefix is rejected, given pbcmpl's exact-size reads, re-checked on the pinned source; "
+         "no direct protobuf decode of the remaining bytes); a fresh message is stored before the first early return and error paths leave it "
+         "untouched. Panics inside protobuf on corrupted (not truncated) bodies are not covered."),
    design="4/C07"),
 
  "C14": dict(
-   technique="symbolic normalisation of SSA terms (byte assembly, offsets) + structural sibling agreement with Get",
-   text=("Decides the found-flag clause completely (each typed getter and Get test the same id function on the key against -1 and return the "
-         "constant flags), that the leaf ordinal comes from the function Get's value path uses, and that the returned value is, as a normalised "
+   technique="guarded result summaries (gated-SSA view with helpers expanded) + symbolic normalisation of SSA terms (byte assembly, offsets)",
+   text=("Decides the found-flag clause completely (every not-found answer of a typed getter is (0,false) under exactly Get's own not-found "
+         "condition id == -1 on the same id term, every found answer under its negation and nothing else), that the leaf ordinal is what a "
+         "function on Get's value path computes from that id, and that the returned value is, as a normalised "
          "term, the W-byte little-endian assembly of Leaves.Bytes at W*ordinal with W = Sizeof(intW) = size of encode.I{8W} (shifts that lose "
          "bits in a narrower type are kept visible). Does not decide that Leaves of an integer trie is dense (a data fact established by the builder)."),
    design="4/C14"),
@@ -95,13 +102,15 @@ CLAIMS = {
          "result is between integers of equal width N=8*Sizeof(T), buffer N/8 bytes, same N both ways => Decode(Encode(v))=v and the fixed-width "
          "little-endian layout for every value. All encoders: the four size reports are one normalised term (String16: 2+len and 2+256*b0+b1 with "
          "the header written as len>>8, len; no bits lost in narrow shifts). TypeEncoder: Encode/Decode only through binary.Write/Read with the "
-         "receiver's Endian, constructor returns a fresh encoder with the requested order. TypeEncoder field layout is encoding/binary's."),
+         "receiver's Endian, constructors return a fresh encoder with the requested order, no in-memory (padded) size reaches its Size for a kind that "
+         "can have padding; no codec panics explicitly on a value of its domain (String16: 0..65535 bytes). TypeEncoder field layout is encoding/binary's."),
    design="4/C15"),
  "C16": dict(
    technique="symbolic term equality between sibling accessors (Rank64 inlined) + CFG reachability for reject-before-effect",
    text=("Decided for every array state and index: each typed Get has the same presence test and the same byte-offset polynomial as the "
          "generic Base.GetBytes with eltsize=Sizeof(elt), decodes with LittleEndian.UintN of that width, returns (0,false) when absent; "
-         "InitIndex/Init cannot reach their sentinel-error return after a receiver store or a use of the list other than the validation, and "
+         "InitIndex/Init cannot reach their sentinel-error return after a receiver store or a use of the list other than the validation, every "
+         "non-panicking path of Init carries the validation's success condition or returns the sentinel, and "
          "constructors return nil with the error; every array type is exactly Base->Array32. Rank offsets' own correctness and the protobuf "
          "round trip are not decided."),
    design="4/C16"),
@@ -122,36 +131,41 @@ CLAIMS = {
          "every path on which the conversion can execute (option-polarity aware). Does not decide that accepted lists are indexed correctly (C01)."),
    design="4/C08"),
  "C12": dict(
-   technique="SSA def-use / CFG check that every positive answer is the reader's own result; type agreement via go/types",
+   technique="guarded result summaries: every positive answer is the reader's own result; type agreement via go/types; bound analysis of offset narrowing",
    text=("Decided for every record set and query: SlimIndex.Get/RangeGet return (\"\",false) exactly on the trie's not-found branch and otherwise "
          "the unmodified result of DataReader.Read(offset.(T), key) with key the query and offset the trie's value for it; routing Get->Get, "
-         "RangeGet->RangeGet; T is the type the index encoder's Decode boxes and the element type of the offsets handed to it. Necessary for "
+         "RangeGet->RangeGet; for every trie the constructor can build, T is the type its encoder's Decode boxes, the element type of the offsets "
+         "handed to it and a type both lookups handle; no offset is narrowed without bound tests that fit the narrower type. Necessary for "
          "exactness because the trie alone has false positives; the trie's own answers for indexed keys are C01/C02."),
    design="4/C12"),
 
  "C01": dict(
-   technique="typestate of bitmap index kinds (writer/reader agreement over wire field paths) + symbolic sibling agreement + interval evaluation with wrap-around",
+   technique="typestate of bitmap index kinds (writer/reader agreement over wire field paths) + symbolic sibling agreement + interval evaluation with wrap-around + CFG bounds on in-place rewrites",
    text=("Decides necessary conditions of no-false-negatives that hold for every key set: every rank/select site (library calls and the inlined "
          "idiom, receiver-relative sites bound at call sites) assumes exactly the index kind its wire bitmap is built with and pairs words with "
          "the index of the same bitmap; every copy of the node-layout computation yields the same normalised from/to/short-bitmap terms and "
          "guards, derived constants and the builder's (4,17)/(8,257) size pairs agree; the query-byte-to-label-index function has value ranges "
-         "exactly {0}, [1,16], [1,256] per branch under wrap-around interval evaluation (all bytes 0x00-0xff addressable, no sign extension). "
-         "Does not decide that ranks select the right child or the value-array width decision."),
+         "exactly {0}, [1,16], [1,256] per branch under wrap-around interval evaluation (all bytes 0x00-0xff addressable, no sign extension); presence "
+         "bitmaps are sized by the last ordinal plus one in the same builder counters; the value-array width is decided per element; in-place "
+         "rewrites of node sizes touch only ordinals >= BigInnerCnt. Does not decide that ranks select the right child."),
    design="4/C01"),
  "C10": dict(
-   technique="CFG dominance/reachability guards (overrun, key index, empty trie incl. sentinel-correlated guards) + symbolic sibling agreement",
+   technique="CFG dominance/reachability guards (overrun, key index, empty trie incl. sentinel-correlated guards) + symbolic sibling agreement + typestate of conditionally assigned session fields",
    text=("Decides the guards the lookups' totality rests on and the by-construction part of consistency: step-mode cursor advances are checked "
          "against the key length on every path to the next label lookup; the only key byte read is dominated by cursor<keyBitLen and sessions "
          "are created with keyBitLen=8*len(key); lookups never dereference the node-type bitmap of an empty trie (nil tests or the callee's own "
          "empty-trie sentinel); the lookup node decoder agrees with its sibling copies incl. the guard of the straddled word; Get/GetI* share one "
-         "GetID, RangeGet/Search one descent, both descents update the cursor with identical terms. No-panic in general needs data invariants "
+         "GetID, RangeGet/Search one descent, both descents update the cursor with identical terms; session fields the node decoders assign only "
+         "for some nodes (bm, innerPrefix, leafPrefix) are assigned exactly when their discriminator says valid and read only under it, so a "
+         "reused session never leaks a previous node's value. No-panic in general needs data invariants "
          "and is not decided."),
    design="4/C10"),
  "C19": dict(
-   technique="provenance typing of []uint64 values (bitmap words vs label path lists) through returns/tuples + map-range/sort discipline",
+   technique="provenance typing of []uint64 values (bitmap words vs label path lists) through returns/tuples + map-range/sort discipline + session-field typestate",
    text=("Decides the clause whose violation made String() panic on tries with table-compressed nodes: no path list flows into a bitmap "
          "parameter, (bitmap,size) pairs carry the size the words were cut with on every return, each bmtree.Decode gets that size; labels are "
-         "rendered from a sorted slice; String on an empty trie returns first. The rest of the rendering (each node once, child ids) is not decided."),
+         "rendered from a sorted slice; String on an empty trie returns first; the label decoder reads conditionally assigned session fields only under "
+         "their validity discriminator (the renderer decodes every node into one reused session). The rest of the rendering (each node once, child ids) is not decided."),
    design="4/C19"),
 }
 
